@@ -304,7 +304,19 @@ package f3
 
 // C14 decoder sweep: no index, slice or allocation-size panic for any input the CBOR reader can produce.
 //@ func (*walEntry).UnmarshalCBOR
-//@   property C14
+//@   property C14 C12 C11
 //@   modifies auto
 //@   maypanic
+//@   ensures[each_entry_decodes_into_its_own_fresh_message] we.Message != nil && !allocated(we.Message)
+//@   at UnmarshalCBOR 1
+//@     before[the_fresh_message_is_what_is_decoded_into] arg(0) == we.Message && arg(1) == r
+
+// What is kept in the log: the certificate subscription purges only entries more than five instances behind the latest
+// certificate (never with a wrapped-around threshold), so the broadcasts of the live instances stay for the restart.
+//@ func (*gpbftRunner).Start$3
+//@   property C12
+//@   modifies auto
+//@   maypanic
+//@   at Purge 1
+//@     before[only_entries_more_than_five_instances_behind_the_certificate_are_purged] cert.GPBFTInstance > 5 && arg(1) == cert.GPBFTInstance - 5 && arg(0) == h.wal
 
